@@ -579,33 +579,35 @@ func checkRangesMergedFn(p *core.Prog, r *core.Report, name string) {
 			}
 		}
 		{
-			// the chain's last element may also be re-read from the input by index (`nextRange = r[i]`) instead of being
-			// carried from the comparison: the index bookkeeping is not judged (see NotCovered), the element must come
-			// from the input slice
+			// the chain's last element may also be re-read from the input by index (`nextRange = r[i]` after `i++`)
+			// instead of being carried from the comparison: it must then be the element that was compared — the same
+			// slice at a structurally equal index (`r[i+1]` tested, `i++`, `r[i]` read) — and be read only behind that
+			// comparison's equality edge
 			if !lastOK {
-				if u, ok := b1.(*ssa.UnOp); ok {
-					if ia, ok := u.X.(*ssa.IndexAddr); ok && ia.X == ssa.Value(fn.Params[0]) {
-						lastOK = true
+				compared := func(e ssa.Value) bool {
+					for _, a := range adjs {
+						if a.stBase == e {
+							return true
+						}
+						if sameElement(e, a.stBase) {
+							if ei, ok := e.(ssa.Instruction); ok {
+								if _, only := core.OnlyViaEdge(fn, a.eq, func(x ssa.Instruction) bool { return x == ei }); only {
+									return true
+								}
+							}
+						}
 					}
+					return false
 				}
 				if ph, ok := b1.(*ssa.Phi); ok {
 					lastOK = true
 					for _, e := range ph.Edges {
-						inInput := false
-						if u, ok := e.(*ssa.UnOp); ok {
-							if ia, ok := u.X.(*ssa.IndexAddr); ok && ia.X == ssa.Value(fn.Params[0]) {
-								inInput = true
-							}
-						}
-						for _, a := range adjs {
-							if a.stBase == e {
-								inInput = true
-							}
-						}
-						if !inInput {
+						if !compared(e) {
 							lastOK = false
 						}
 					}
+				} else {
+					lastOK = compared(b1)
 				}
 			}
 		}
@@ -621,7 +623,7 @@ func checkRangesMergedFn(p *core.Prog, r *core.Report, name string) {
 			continue
 		}
 		for i, pred := range ph.Block().Preds {
-			if ph.Edges[i] != a.stBase {
+			if ph.Edges[i] != a.stBase && !sameElement(ph.Edges[i], a.stBase) {
 				continue
 			}
 			_, only := core.OnlyViaEdge(fn, a.eq, func(x ssa.Instruction) bool { return x == pred.Instrs[0] })
@@ -721,4 +723,20 @@ func predicateImplies(h *ssa.Function, startF, endF *types.Var) bool {
 		}
 	})
 	return ok
+}
+
+// sameElement: two loads of the same slice at structurally equal indexes (go/ssa does no CSE: `r[i+1]` read in a
+// condition and `r[i]` read after `i++` are two loads whose index expressions are both `i0 + 1`).
+func sameElement(a, b ssa.Value) bool {
+	ua, ok1 := a.(*ssa.UnOp)
+	ub, ok2 := b.(*ssa.UnOp)
+	if !ok1 || !ok2 || ua.Op != token.MUL || ub.Op != token.MUL {
+		return false
+	}
+	ia, ok1 := ua.X.(*ssa.IndexAddr)
+	ib, ok2 := ub.X.(*ssa.IndexAddr)
+	if !ok1 || !ok2 || ia.X != ib.X {
+		return false
+	}
+	return sameExpr(ia.Index, ib.Index, 3)
 }
